@@ -135,13 +135,15 @@ class HSTRPDatagramProtocol(DatagramProtocol, LoggingTrait):
             was_handled = True
             was_confirmed = True
             self.hstrp_set_connected(connected=True)
-            self.hstrp_send_ack(addr, pdu)
+            if not pdu.pkt_type.is_ack:
+                # the acknowledgement of a connect still carries the connect bit, it must not be acknowledged again
+                self.hstrp_send_ack(addr, pdu)
         elif pdu.pkt_type.is_heartbeat:
             # heartbeat
             was_handled = True
             # HEARTBEAT is not confirmed protocol
             was_confirmed = True
-            if self.hstrp_connected:
+            if self.hstrp_connected and not pdu.pkt_type.is_ack:
                 # TODO use T_HEARTBEAT and send own heartbeats (not-just copy peer timer/heartbeats)
                 self.hstrp_send_heartbeat(addr)
         elif pdu.pkt_type.is_close:
@@ -151,7 +153,8 @@ class HSTRPDatagramProtocol(DatagramProtocol, LoggingTrait):
             # CLOSE is not confirmed protocol
             was_confirmed = True
             # confirm connection closing hstrp message
-            self.hstrp_send_ack(addr, pdu)
+            if not pdu.pkt_type.is_ack:
+                self.hstrp_send_ack(addr, pdu)
         elif pdu.pkt_type.is_ack:
             # received confirmation from peer
             was_handled = True
